@@ -27,8 +27,8 @@ const (
 	quiesce = 2 * time.Second  // the statement's "ends once the executing requests return": polled this long
 	hangT   = 10 * time.Second // harness prologue deadlines
 	// schedule-only waits (never part of a verdict)
-	closeWait   = 25 * time.Millisecond
-	lateTimeout = 25 * time.Millisecond
+	closeWait   = 5 * time.Millisecond
+	lateTimeout = 3 * time.Millisecond
 	holdTimeout = 2 * time.Second
 )
 
@@ -185,12 +185,13 @@ type tally struct {
 	shown     map[int]string // incarnation -> conn id
 	destroyed map[int]int
 	byTag     map[uint16][]int // victim tag -> incarnations shown by that request
+	byAname   map[string][]int // aname -> incarnations shown to AuthInit (victim)
 	entered   map[uint16]bool
 	done      map[uint16]bool
 }
 
 func tallyLog(log []script.Entry, vid string) *tally {
-	t := &tally{closed: map[string]int{}, shown: map[int]string{}, destroyed: map[int]int{}, byTag: map[uint16][]int{}, entered: map[uint16]bool{}, done: map[uint16]bool{}}
+	t := &tally{closed: map[string]int{}, shown: map[int]string{}, destroyed: map[int]int{}, byTag: map[uint16][]int{}, byAname: map[string][]int{}, entered: map[uint16]bool{}, done: map[uint16]bool{}}
 	show := func(conn string, tag uint16, viaOp bool, incs ...int) {
 		for _, x := range incs {
 			if x != 0 {
@@ -216,6 +217,9 @@ func tallyLog(log []script.Entry, vid string) *tally {
 			}
 		case "authinit", "authread", "authwrite", "authdestroy":
 			show(e.Conn, 0, false, e.Inc)
+			if e.Kind == "authinit" && e.Conn == vid && e.Inc != 0 {
+				t.byAname[strings.TrimPrefix(e.Key, "authinit/")] = append(t.byAname[strings.TrimPrefix(e.Key, "authinit/")], e.Inc)
+			}
 		case "authcheck":
 			show(e.Conn, 0, false, e.AInc)
 		case "fiddestroy":
@@ -388,7 +392,12 @@ func runScript(c *Case, res *result) (err error) {
 			if entered {
 				lf.state = "executing"
 			} else {
+				// answered by the framework (or by the authentication hooks):
+				// part of the history; let the reply leave before the cut
 				lf.state = "refused"
+				if !k.wait(lf.who, "respond.unlinked", 1, hangT) {
+					return &hangError{"request " + lf.key + " was refused but its reply never left"}
+				}
 			}
 		}
 	}
@@ -448,7 +457,7 @@ func runScript(c *Case, res *result) (err error) {
 		release(parked[0])
 		parked = parked[1:]
 	}
-	if k.wait(connWho(vid), "close.exit", 1, closeWait) {
+	if closeSettled(k, vid, closeWait) {
 		res.labels = append(res.labels, "close finished before the (remaining) requests were released")
 	} else {
 		res.labels = append(res.labels, "close still in progress when the requests were released")
@@ -560,6 +569,11 @@ func runScript(c *Case, res *result) (err error) {
 		if lf.state == "executing" {
 			for _, x := range t.byTag[lf.tag] {
 				touched[x] = true
+			}
+			if lf.m.Type == ref9p.Tauth {
+				for _, x := range t.byAname[lf.m.Aname] {
+					touched[x] = true
+				}
 			}
 			if !lf.f.harmless() {
 				risky = true
